@@ -182,7 +182,7 @@ def run(rep, tier, rng):
         for req in (-1, f["code"]):
             ops = reader_ops(n, fi)
             # every fourth history on sources (both files) that deliver a few bytes per read call
-            sched = [[16], [3], [7, 1], [19]][len(rcases) % 4] if len(rcases) % 4 == 1 else ()
+            sched = [[16], [3], [7, 1], [19]][(len(rcases) // 8) % 4] if (len(rcases) // 2) % 4 == 1 else ()
             rcases.append(C.read_case(req, w["shp"]["buf"], w["shx"]["buf"], ops, sched=sched))
             meta.append((fi, req, ops, True))
             rcases.append(C.read_case(req, w["shp"]["buf"], None, [("it", -1)]))
